@@ -14,7 +14,6 @@ import (
 	"errors"
 	"hash"
 	"math"
-	"slices"
 )
 
 const (
@@ -111,9 +110,11 @@ func vetDSTXMD(h hash.Hash, dst []byte) []byte {
 	}
 
 	// DST prime = length suffixed DST
-	dst = slices.Grow(dst, 1)
+	// Build DST' in a new buffer: appending to dst could write into the caller's backing array.
+	dstPrime := make([]byte, 0, len(dst)+1)
+	dstPrime = append(dstPrime, dst...)
 
-	return append(dst, i2osp1(uint(len(dst)))[0])
+	return append(dstPrime, i2osp1(uint(len(dst)))[0])
 }
 
 func hashAll(h hash.Hash, input ...[]byte) []byte {
